@@ -156,6 +156,7 @@ func main() {
 					meta.Count("earlier_version_of_other_length", refilled)
 					var resp *e2elib.Response
 					var rerr error
+					originBefore := env.Origin.Count()
 					if tlsOn {
 						var c *e2elib.Conn
 						c, _, rerr = env.DialTunnel(env.Origin.Addr, "127.0.0.1", 8*time.Second)
@@ -168,6 +169,13 @@ func main() {
 						}
 					} else {
 						resp, rerr = env.DoPlain(env.PlainRequest("GET", path, hs, nil), "GET", 8*time.Second)
+					}
+					// a label saying "answered from the store" on an answer for which the origin was contacted
+					if rerr == nil && env.Origin.Count() > originBefore && (resp.Header.Get("X-Cache") == "HIT" || strings.Contains(resp.Header.Get("Cache-Status"), "; hit")) &&
+						!strings.Contains(resp.Header.Get("Cache-Status"), "fwd") {
+						meta.DirectFail(map[string]any{"kind": "contacted-origin-labelled-hit", "range": spec, "has_range": hasRange, "status": resp.Status, "backend": backend,
+							"x_cache": resp.Header.Get("X-Cache"), "cache_status": resp.Header.Get("Cache-Status"), "origin_requests_for_this_request": env.Origin.Count() - originBefore,
+							"what": "the origin was contacted for this request, yet the answer is labelled as a plain hit"})
 					}
 					obs := "ONoResponse"
 					if rerr == nil && resp.BodyErr == "" {
